@@ -71,3 +71,33 @@ def table_sweep(ctx):
     if bad:
         ctx.add_broken("translator: extracted ACTION/GOTO differ from the exported functions at %d entries, first %s" % (len(bad), bad[0]))
     return len(la) + len(lg), sum(1 for x in ia if x != "E") + sum(1 for x in ig if x != "-1")
+
+
+# number of body symbols of each production of the documented EBNF grammar (docs/5-definitions.md, desugared)
+BODY_LEN = [2, 3, 2, 0, 2, 2, 2, 1, 0, 3, 3, 3, 2, 2, 2, 2, 2, 1, 1, 3, 3, 2, 1, 2, 3, 3, 3, 3, 3, 2, 1, 1, 1, 1, 1]
+
+
+def fold_events(events):
+    """What the property prescribes for ParseAndEvaluate / ParseAndBuildAST, computed from a derivation (post-order
+    event list of the independent recogniser): the evaluation function receives the values of the body symbols left to
+    right, its result becomes the head's value and the first body symbol's position the head's position.
+    -> (value string of the root as the stub evaluation function builds it, tree string, calls: list of (prod, [args]))"""
+    vals, trees, calls = [], [], []
+    for e in events:
+        if e[0] == "T":
+            i = int(e[1:])
+            vals.append(("L%d" % i, str(i)))
+            trees.append("L%d" % i)
+        else:
+            p = int(e[1:])
+            n = BODY_LEN[p]
+            args = vals[len(vals) - n:] if n else []
+            targs = trees[len(trees) - n:] if n else []
+            if n:
+                del vals[len(vals) - n:]
+                del trees[len(trees) - n:]
+            v = "(%d%s)" % (p, "".join(" %s@%s" % a for a in args))
+            calls.append((p, args))
+            vals.append((v, args[0][1] if n else "-"))
+            trees.append("(%d%s)" % (p, "".join(" " + t for t in targs)))
+    return vals[-1], trees[-1], calls
